@@ -83,6 +83,48 @@ func Minimise(spec *RunSpec, prop, sig string, opts RunOpts, budget int) (*RunSp
 		}
 		return ls
 	}
+	if cur.Scenario == "S-CORRUPT" && cur.Extra != nil {
+		// fewest faults, smallest table
+		get := func(c *RunSpec) *CorruptSpec {
+			var cs CorruptSpec
+			json.Unmarshal(*c.Extra, &cs)
+			return &cs
+		}
+		put := func(c *RunSpec, cs *CorruptSpec) {
+			b, _ := json.Marshal(cs)
+			raw := json.RawMessage(b)
+			c.Extra = &raw
+		}
+		for again := true; again && execs < budget; {
+			again = false
+			for i := len(get(cur).Muts) - 1; i >= 0; i-- {
+				again = try(func(c *RunSpec) bool {
+					cs := get(c)
+					if i >= len(cs.Muts) {
+						return false
+					}
+					cs.Muts = append(cs.Muts[:i], cs.Muts[i+1:]...)
+					put(c, cs)
+					return true
+				}) || again
+			}
+			for _, f := range []func(cs *CorruptSpec) bool{
+				func(cs *CorruptSpec) bool { if cs.NLogs == 0 { return false }; cs.NLogs /= 2; return true },
+				func(cs *CorruptSpec) bool { if cs.NRefs <= 1 { return false }; cs.NRefs /= 2; return true },
+				func(cs *CorruptSpec) bool { if len(cs.ReadFaults) == 0 { return false }; cs.ReadFaults = cs.ReadFaults[:len(cs.ReadFaults)-1]; return true },
+				func(cs *CorruptSpec) bool { if cs.Mode == "bytes" { return false }; cs.Mode = "bytes"; return true },
+			} {
+				again = try(func(c *RunSpec) bool {
+					cs := get(c)
+					if !f(cs) {
+						return false
+					}
+					put(c, cs)
+					return true
+				}) || again
+			}
+		}
+	}
 	for pass := 0; pass < 6; pass++ {
 		changed := false
 		// no final phase
